@@ -166,11 +166,12 @@ theorem get2a_clean (s : SState) (hs : s.dis = []) (ha : (get2a s).dis = []) :
   cases hp : s.phase <;> cases hk : (s.slots.ask == some 0) <;> cases ht : s.tripDue <;>
     simp [get2a, SState.inPhase, SState.note, hp, hk, ht, hs, ww] at ha ⊢ <;> simp_all
 
-theorem ww_get2 (c : SCfg) (s : SState) (t2 : Nat) (slots : Slots) (got : List Nat) (sleep : Bool) (running : Nat)
+theorem ww_get2_explicit (c : SCfg) (s : SState) (t2 : Nat) (slots : Slots) (got : List Nat) (sleep : Bool) (running : Nat)
     (hs : s.dis = []) (hc : (stepL c s (.get2 t2 slots got sleep running)).dis = []) :
     (s.phase = .afterGet1 ∨ (s.slots.ask = some 0 ∧ s.tripDue = false)) ∧
-      ∃ ready, ww (stepL c s (.get2 t2 slots got sleep running)) =
-        { ww s with phase := .afterGet2, batch := (getBatch ready s.slots.ask s.q).1 } := by
+      ww (stepL c s (.get2 t2 slots got sleep running)) =
+        { ww s with phase := .afterGet2, batch := (getBatch (get2ready (get2c s) t2 got) s.slots.ask s.q).1 } ∧
+      (get2c s).lastGet1 = s.lastGet1 := by
   rw [get2_eq] at hc ⊢
   -- every stage is clean
   have hcc : (get2a s).dis <+: (get2c s).dis := by
@@ -196,7 +197,12 @@ theorem ww_get2 (c : SCfg) (s : SState) (t2 : Nat) (slots : Slots) (got : List N
   have hC : (get2c s).dis = [] := by rw [hD] at hcd; exact List.prefix_nil.mp hcd
   have hA : (get2a s).dis = [] := by rw [hC] at hcc; exact List.prefix_nil.mp hcc
   obtain ⟨hph, hwa, hqa⟩ := get2a_clean s hs hA
-  refine ⟨hph, ?_⟩
+  have hlg : (get2c s).lastGet1 = s.lastGet1 := by
+    unfold get2c SState.checkExpectDone get2a SState.inPhase
+    simp only
+    repeat' split
+    all_goals simp [SState.note]
+  refine ⟨hph, ?_, hlg⟩
   -- the stages leave the watched fields alone
   have eC : ww (get2c s) = { ww s with phase := .afterGet2 } ∧ (get2c s).q = s.q := by
     have e1 : (get2a s).batch = s.batch := congrArg W.batch hwa
@@ -220,7 +226,6 @@ theorem ww_get2 (c : SCfg) (s : SState) (t2 : Nat) (slots : Slots) (got : List N
   have e3 : (get2c s).notifs = s.notifs := congrArg W.notifs eC.1
   have e4 : (get2c s).tripDue = s.tripDue := congrArg W.trip eC.1
   have e5 : (get2c s).phase = .afterGet2 := congrArg W.phase eC.1
-  refine ⟨get2ready (get2c s) t2 got, ?_⟩
   unfold get2R at hc ⊢
   simp only [eE] at hc ⊢
   split
@@ -232,6 +237,24 @@ theorem ww_get2 (c : SCfg) (s : SState) (t2 : Nat) (slots : Slots) (got : List N
   · rename_i hg
     rw [if_neg hg] at hc
     simp [SState.note] at hc
+
+theorem ww_get2 (c : SCfg) (s : SState) (t2 : Nat) (slots : Slots) (got : List Nat) (sleep : Bool) (running : Nat)
+    (hs : s.dis = []) (hc : (stepL c s (.get2 t2 slots got sleep running)).dis = []) :
+    (s.phase = .afterGet1 ∨ (s.slots.ask = some 0 ∧ s.tripDue = false)) ∧
+      ∃ ready, ww (stepL c s (.get2 t2 slots got sleep running)) =
+        { ww s with phase := .afterGet2, batch := (getBatch ready s.slots.ask s.q).1 } := by
+  obtain ⟨h1, h2, _⟩ := ww_get2_explicit c s t2 slots got sleep running hs hc
+  exact ⟨h1, _, h2⟩
+
+theorem getBatch_all_ready' (ready : Entry → Bool) (ask : Option Nat) (q : Queues) :
+    ∀ e ∈ (getBatch ready ask q).1, ready e = true := by
+  unfold getBatch
+  by_cases h0 : (ask == some 0) = true
+  · simp [h0]
+  · simp only [h0, Bool.false_eq_true, if_false]
+    split
+    · exact drainQ_all_ready ready _ _
+    · exact drainQ_all_ready ready _ _
 
 theorem getBatch_zero (ready : Entry → Bool) (q : Queues) : (getBatch ready (some 0) q).1 = [] := by
   simp [getBatch]
